@@ -601,4 +601,201 @@ theorem ReorderD.map_fst : ∀ {l l' : List (PyVal × PyVal)}, ReorderD l l' →
   | _, _, .nil => .nil
   | _, _, .cons h1 _ h3 => .cons h1 (ReorderD.map_fst h3)
 
+/-! ### the encoder on related inputs -/
+
+section congr
+variable (e : PyVal → Memo → Bs × Memo)
+
+theorem seqM_congr : ∀ {l l' : List PyVal}, ReorderL l l' →
+    (∀ a ∈ l, ∀ b m, Reorder a b → e a m = e b m) → ∀ m, seqM e l m = seqM e l' m
+  | _, _, .nil, _, _ => rfl
+  | _, _, .cons (a := a) (as := as) h1 h2, he, m => by
+    simp only [seqM]
+    rw [he a List.mem_cons_self _ m h1,
+      seqM_congr h2 (fun x hx => he x (List.mem_cons_of_mem _ hx))]
+
+theorem seqKV_congr : ∀ {l l' : List (PyVal × PyVal)}, ReorderD l l' →
+    (∀ kv ∈ l, ∀ b m, (Reorder kv.1 b → e kv.1 m = e b m) ∧ (Reorder kv.2 b → e kv.2 m = e b m)) →
+    ∀ m, seqKV e l m = seqKV e l' m
+  | _, _, .nil, _, _ => rfl
+  | _, _, .cons (k := k) (v := v) h1 h2 h3, he, m => by
+    simp only [seqKV]
+    rw [(he (k, v) List.mem_cons_self _ m).1 h1, (he (k, v) List.mem_cons_self _ _).2 h2,
+      seqKV_congr h3 (fun x hx => he x (List.mem_cons_of_mem _ hx))]
+
+theorem saveList_congr {l l' : List PyVal} (h : ReorderL l l')
+    (he : ∀ a ∈ l, ∀ b m, Reorder a b → e a m = e b m) (m : Memo) :
+    saveList e l m = saveList e l' m := by
+  simp only [saveList]; rw [seqM_congr e h he]
+
+theorem saveTuple_congr {l l' : List PyVal} (h : ReorderL l l')
+    (he : ∀ a ∈ l, ∀ b m, Reorder a b → e a m = e b m) (m : Memo) :
+    saveTuple e l m = saveTuple e l' m := by
+  have hlen := h.length_eq
+  have hemp : l.isEmpty = l'.isEmpty := by
+    cases h <;> rfl
+  simp only [saveTuple]; rw [seqM_congr e h he, hlen, hemp]
+
+theorem wrapper_congr (c : Cls) {l l' : List PyVal} (h : ReorderL l l')
+    (he : ∀ a ∈ l, ∀ b m, Reorder a b → e a m = e b m) (m : Memo) :
+    wrapper e c l m = wrapper e c l' m := by
+  simp only [wrapper]; rw [saveList_congr e h he]
+
+variable (H : Bs → Bs) (ver : Version)
+
+theorem map_topOf_congr : ∀ {l l' : List PyVal}, ReorderL l l' →
+    (∀ a ∈ l, ∀ b m, Reorder a b → e a m = e b m) → l.map (topOf H e) = l'.map (topOf H e)
+  | _, _, .nil, _ => rfl
+  | _, _, .cons (a := a) h1 h2, he => by
+    simp only [List.map_cons]
+    rw [map_topOf_congr h2 (fun x hx => he x (List.mem_cons_of_mem _ hx))]
+    simp only [topOf]
+    rw [he a List.mem_cons_self _ _ h1]
+
+theorem keysOf_rel {l l' : List PyVal} (h : ReorderL l l')
+    (he : ∀ a ∈ l, ∀ b m, Reorder a b → e a m = e b m) :
+    ReorderL (keysOf H ver e l) (keysOf H ver e l') := by
+  simp only [keysOf]
+  rw [← h.orderable_eq ver]
+  split
+  · exact h
+  · rw [map_topOf_congr e H h he]; exact ReorderL.refl _
+
+theorem keysOf_perm {l l' : List PyVal} (p : l.Perm l') :
+    (keysOf H ver e l).Perm (keysOf H ver e l') := by
+  simp only [keysOf]
+  rw [← orderable_perm ver p]
+  split
+  · exact p
+  · exact p.map _
+
+theorem keysOf_mem {l : List PyVal} {a : PyVal} (h : a ∈ keysOf H ver e l) :
+    a ∈ l ∨ ∃ s, a = .str s := by
+  simp only [keysOf] at h
+  split at h
+  · exact Or.inl h
+  · obtain ⟨x, _, rfl⟩ := List.mem_map.mp h
+    exact Or.inr ⟨_, rfl⟩
+
+theorem map_item_congr : ∀ {l l' : List (PyVal × PyVal)}, ReorderD l l' →
+    (∀ kv ∈ l, ∀ b m, Reorder kv.1 b → e kv.1 m = e b m) →
+    ReorderD (l.map fun kv => (topOf H e kv.1, kv.2)) (l'.map fun kv => (topOf H e kv.1, kv.2))
+  | _, _, .nil, _ => .nil
+  | _, _, .cons (k := k) (v := v) h1 h2 h3, he => by
+    simp only [List.map_cons]
+    refine .cons ?_ h2 (map_item_congr h3 (fun x hx => he x (List.mem_cons_of_mem _ hx)))
+    simp only [topOf]
+    rw [he (k, v) List.mem_cons_self _ _ h1]
+    exact Reorder.refl _
+
+theorem itemsOf_rel {l l' : List (PyVal × PyVal)} (h : ReorderD l l')
+    (he : ∀ kv ∈ l, ∀ b m, Reorder kv.1 b → e kv.1 m = e b m) :
+    ReorderD (itemsOf H ver e l) (itemsOf H ver e l') := by
+  simp only [itemsOf]
+  rw [← h.map_fst.orderable_eq ver]
+  split
+  · exact h
+  · exact map_item_congr e H h he
+
+theorem itemsOf_perm {l l' : List (PyVal × PyVal)} (p : l.Perm l') :
+    (itemsOf H ver e l).Perm (itemsOf H ver e l') := by
+  simp only [itemsOf]
+  rw [← orderable_perm ver (p.map Prod.fst)]
+  split
+  · exact p
+  · exact p.map _
+
+theorem itemsOf_mem {l : List (PyVal × PyVal)} {a : PyVal × PyVal} (h : a ∈ itemsOf H ver e l) :
+    a ∈ l ∨ ∃ s, a.1 = .str s ∧ ∃ kv ∈ l, a.2 = kv.2 := by
+  simp only [itemsOf] at h
+  split at h
+  · exact Or.inl h
+  · obtain ⟨x, hx, rfl⟩ := List.mem_map.mp h
+    exact Or.inr ⟨_, rfl, x, hx, rfl⟩
+
+end congr
+
+/-- `sorted` is well defined at every dict / set / frozenset node of the value (looked at `f` levels
+deep): the things it sorts — the keys themselves, or their digests on the fallback path — are
+pairwise comparable and pairwise different.  For a real Python value this says: on the fallback
+path no two keys of one container have the same digest (no md5 collision among them); on the
+direct path it always holds (keys of a dict / elements of a set are pairwise `!=`). -/
+def KeysStrict (H : Bs → Bs) : Nat → PyVal → Prop
+  | 0, _ => True
+  | f + 1, v =>
+    match v with
+    | .list l => ∀ x ∈ l, KeysStrict H f x
+    | .tuple l => ∀ x ∈ l, KeysStrict H f x
+    | .set l => StrictOn id (keysOf H .fixed (encF H .fixed f) l) ∧ ∀ x ∈ l, KeysStrict H f x
+    | .frozenset l => StrictOn id (keysOf H .fixed (encF H .fixed f) l) ∧ ∀ x ∈ l, KeysStrict H f x
+    | .dict items => StrictOn Prod.fst (itemsOf H .fixed (encF H .fixed f) items) ∧
+        ∀ kv ∈ items, KeysStrict H f kv.1 ∧ KeysStrict H f kv.2
+    | _ => True
+
+theorem str_reorder {s : Bs} {b : PyVal} (h : Reorder (.str s) b) : b = .str s := by cases h; rfl
+
+/-- Main lemma: related values have the same stream (and leave the same memo), at every fuel. -/
+theorem encF_reorder (H : Bs → Bs) : ∀ (f : Nat) (v w : PyVal) (m : Memo), Reorder v w →
+    KeysStrict H f v → encF H .fixed f v m = encF H .fixed f w m := by
+  intro f
+  induction f with
+  | zero => intro v w m _ _; simp [encF]
+  | succ f ih =>
+    intro v w m h hk
+    have key : ∀ (l : List PyVal), (∀ x ∈ l, KeysStrict H f x) →
+        ∀ a ∈ l, ∀ b m, Reorder a b → encF H .fixed f a m = encF H .fixed f b m :=
+      fun l hl a ha b m hab => ih a b m hab (hl a ha)
+    cases h with
+    | none => rfl
+    | bool b => rfl
+    | int i => rfl
+    | float x => rfl
+    | str s => rfl
+    | bytes s => rfl
+    | list hl =>
+      simp only [encF]
+      exact saveList_congr _ hl (key _ hk) m
+    | tuple hl =>
+      simp only [encF]
+      exact saveTuple_congr _ hl (key _ hk) m
+    | @set l l' l'' hl hp =>
+      simp only [encF]
+      obtain ⟨hs, hmem⟩ := hk
+      have he := key _ hmem
+      have r1 := keysOf_rel (encF H .fixed f) H .fixed hl he
+      have r2 := keysOf_perm (encF H .fixed f) H .fixed hp
+      rw [← sortOn_perm_eq id r2 (r1.strictOn hs)]
+      refine wrapper_congr _ _ r1.sortOn ?_ m
+      intro a ha b m' hab
+      rcases keysOf_mem _ H .fixed ((sortOn_perm id _).subset ha) with h1 | ⟨s, rfl⟩
+      · exact he a h1 b m' hab
+      · rw [str_reorder hab]
+    | @frozenset l l' l'' hl hp =>
+      simp only [encF]
+      obtain ⟨hs, hmem⟩ := hk
+      have he := key _ hmem
+      have r1 := keysOf_rel (encF H .fixed f) H .fixed hl he
+      have r2 := keysOf_perm (encF H .fixed f) H .fixed hp
+      rw [← sortOn_perm_eq id r2 (r1.strictOn hs)]
+      refine wrapper_congr _ _ r1.sortOn ?_ m
+      intro a ha b m' hab
+      rcases keysOf_mem _ H .fixed ((sortOn_perm id _).subset ha) with h1 | ⟨s, rfl⟩
+      · exact he a h1 b m' hab
+      · rw [str_reorder hab]
+    | @dict l l' l'' hl hp =>
+      simp only [encF]
+      obtain ⟨hs, hmem⟩ := hk
+      have hek : ∀ kv ∈ l, ∀ b m, Reorder kv.1 b → encF H .fixed f kv.1 m = encF H .fixed f b m :=
+        fun kv hkv b m hab => ih _ b m hab (hmem kv hkv).1
+      have r1 := itemsOf_rel (encF H .fixed f) H .fixed hl hek
+      have r2 := itemsOf_perm (encF H .fixed f) H .fixed hp
+      rw [← sortOn_perm_eq Prod.fst r2 (r1.strictOn hs)]
+      rw [seqKV_congr _ r1.sortOn]
+      intro kv hkv b m'
+      rcases itemsOf_mem _ H .fixed ((sortOn_perm Prod.fst _).subset hkv) with h1 | ⟨s, hs1, kv', hkv', hs2⟩
+      · exact ⟨fun hab => ih _ b m' hab (hmem kv h1).1, fun hab => ih _ b m' hab (hmem kv h1).2⟩
+      · refine ⟨fun hab => ?_, fun hab => ?_⟩
+        · rw [hs1] at hab ⊢; rw [str_reorder hab]
+        · rw [hs2] at hab ⊢; exact ih _ b m' hab (hmem kv' hkv').2
+
 end JoblibModel.HashStream
